@@ -1,5 +1,6 @@
 import WpModel.Model.Wire
 import WpModel.Model.PaginateFoot
+import WpModel.Model.PaginateFootOps
 import WpModel.Drive.Paginate
 
 /-! Line protocol of the footnote pagination model:
@@ -68,8 +69,44 @@ def run (h ltr a : Sx) (named : List Sx) (b : Sx) : Option String := do
   | some pages => pure (" ".intercalate ((pages.map fun p => (pageSxF p).render) ++ [(leftSx pages).render]))
   | none => pure "err:pagination"
 
+/-! `footops <pageH> (<area>) ((fid m h) …) ((lay|report|unlay fid) …)`: the calls made from the state in which a page
+starts; per call performed `(s page_bottom areaHeight|auto overflow (cur …) (reported …) (waiting …))`, then `(stop)`
+if a call's precondition failed. -/
+
+def fnOf? : Sx → Option Fn
+  | .list [fid, m, h] => do pure { fid := ← fid.nat?, m := ← m.nat?, h := ← h.rat?, policy := .auto, page := "" }
+  | _ => none
+
+def opOf? (fns : List Fn) : Sx → Option FOp
+  | .list [.atom name, fid] => do
+    let fid ← fid.nat?
+    let f ← fns.find? (fun f => f.fid == fid)
+    match name with
+    | "lay" => some (.lay f)
+    | "report" => some (.report f)
+    | "unlay" => some (.unlay f)
+    | _ => none
+  | _ => none
+
+def stepSx (r : FState × Bool) : Sx :=
+  .list [.atom "s", sxRat r.1.pageBottom, (match r.1.areaH with | none => .atom "auto" | some h => sxRat h),
+    .atom (if r.2 then "true" else "false"), .list (r.1.cur.map fun f => sxNat f.fid),
+    .list (r.1.reported.map fun f => sxNat f.fid), .list (r.1.pending.map fun f => sxNat f.fid)]
+
+def runOps (h a : Sx) (fns ops : List Sx) : Option String := do
+  let h ← h.rat?
+  let area ← area? a
+  let fns ← allSome fnOf? fns
+  let ops ← allSome (opOf? fns) ops
+  let c : FCtx := { area := area, pageH := h, currentPage := 1, forcedBreak := false, tbl := [] }
+  let trace := applyOps c (pageStartState c fns) ops
+  let steps := trace.map fun r => (stepSx r).render
+  let steps := if trace.length < ops.length then steps ++ ["(stop)"] else steps
+  pure (if steps.isEmpty then "(none)" else " ".intercalate steps)
+
 def handle (cmd : String) (args : List Sx) : Option String :=
   match cmd, args with
+  | "footops", [h, a, .list fns, .list ops] => runOps h a fns ops
   | "pmfoot", [h, ltr, a, b] => run h ltr a [] b
   | "pmfoot", [h, ltr, a, .list named, b] => run h ltr a named b
   | _, _ => none
